@@ -3,70 +3,70 @@ Model of `commonspace/spacepayloads/payloads.go` (C13): `ValidateSpaceHeader`,
 `validateCreateSpaceAclPayload`, `validateCreateSpaceSettingsPayload`,
 `ValidateSpaceStorageCreatePayload`, branch by branch, in the order of the Go code.
 
-Byte strings are opaque symbols (`Bytes := Nat`, equal symbol ⇔ equal bytes); everything the Go code
-obtains from hashing, protobuf decoding, key decoding and signature verification is a field of `World`
-(a parameter). The driver instantiates `World` with tables computed by the real primitives on the
-concrete payload; the theorems quantify over every `World` that satisfies the symbolic laws of
-`Spec.lean` (collision-free hash, decode∘encode = id, sign/verify law). Space ids are real strings
-(`List Char`), so the first-dot split is modelled as coded.
-Core Lean only (linked into `modeld`).
+Byte strings are opaque (`B`, equal value ⇔ equal bytes; the driver uses interned naturals, the
+consistency witness of `Spec.lean` a free term algebra); everything the Go code obtains from hashing,
+protobuf decoding, key decoding and signature verification is a field of `World` (a parameter). The
+driver instantiates `World` with tables computed by the real primitives on the concrete payload; the
+theorems quantify over every `World` that satisfies the symbolic laws of `Spec.lean` (collision-free
+hash, decode∘encode = id, sign/verify law). Space ids are strings over `C` (the driver: `Char`), so the
+first-dot split is modelled as coded. Core Lean only (linked into `modeld`).
 -/
 import AnySyncModel.Generated.SpaceConsts
 
 namespace AnySync.Space
 open AnySync.Generated.Space
 
-abbrev Bytes := Nat
 /-- a decoded Ed25519 public key -/
 abbrev Key := Nat
-abbrev Str := List Char
 
 /-- `spacesyncproto.SpaceHeader` (fields the validator reads; `rest` = timestamp, seed, fileproto version) -/
-structure Header where
-  identity : Bytes
+structure Header (B : Type) where
+  identity : B
   replKey : Nat
   version : Nat
-  aclPayload : Bytes
-  settingPayload : Bytes
-  spaceType : Str
-  payload : Bytes
+  aclPayload : B
+  settingPayload : B
+  spaceType : List Char
+  payload : B
   rest : Nat
   deriving DecidableEq, Repr
 
 /-- `aclrecordproto.AclRoot` (`rest` = read-key material, timestamp, one-to-one info, options) -/
-structure AclRoot where
-  identity : Bytes
-  masterKey : Bytes
-  identitySig : Bytes
-  spaceId : Str
+structure AclRoot (B C : Type) where
+  identity : B
+  masterKey : B
+  identitySig : B
+  spaceId : List C
   rest : Nat
   deriving DecidableEq, Repr
 
 /-- `treechangeproto.RootChange` (`rest` = change type, timestamp, seed, …) -/
-structure RootChange where
-  identity : Bytes
-  spaceId : Str
-  aclHeadId : Str
+structure RootChange (B C : Type) where
+  identity : B
+  spaceId : List C
+  aclHeadId : List C
   rest : Nat
   deriving DecidableEq, Repr
 
 /-- the primitives the validator calls -/
-structure World where
+structure World (B C : Type) where
+  /-- embedding of ASCII characters into the id alphabet -/
+  ch : Char → C
   /-- `cidutil.NewCidFromBytes` (text form of the CID) -/
-  hash : Bytes → Str
+  hash : B → List C
   /-- `RawSpaceHeader` / `RawRecord` / `RawTreeChange` `.UnmarshalVT`: (payload, signature) -/
-  decRaw : Bytes → Option (Bytes × Bytes)
-  decHeader : Bytes → Option Header
-  decAclRoot : Bytes → Option AclRoot
-  decRoot : Bytes → Option RootChange
+  decRaw : B → Option (B × B)
+  decHeader : B → Option (Header B)
+  decAclRoot : B → Option (AclRoot B C)
+  decRoot : B → Option (RootChange B C)
   /-- `AclOneToOneInfo.UnmarshalVT` succeeds -/
-  decO2O : Bytes → Bool
+  decO2O : B → Bool
   /-- `crypto.UnmarshalEd25519PublicKeyProto` -/
-  decKey : Bytes → Option Key
+  decKey : B → Option Key
   /-- `PubKey.Raw()` -/
-  rawKey : Key → Bytes
+  rawKey : Key → B
   /-- `PubKey.Verify(msg, sig)` -/
-  verify : Key → Bytes → Bytes → Bool
+  verify : Key → B → B → Bool
 
 inductive Err where
   | incorrectHeader      -- spacestorage.ErrIncorrectSpaceHeader
@@ -76,115 +76,148 @@ inductive Err where
   | incorrectOneToOne    -- ErrIncorrectOneToOnePayload
   deriving DecidableEq, Repr
 
-/-- `strings.Index(s, ".")` -/
-def indexDot : Str → Option Nat
+/-- `strings.Index(s, d)` -/
+def indexOf {C : Type} [DecidableEq C] (d : C) : List C → Option Nat
   | [] => none
-  | x :: xs => if x = '.' then some 0 else (indexDot xs).map (· + 1)
+  | x :: xs => if x = d then some 0 else (indexOf d xs).map (· + 1)
 
 /-- digit of `strconv.FormatUint(_, 36)`: `0-9a-z` -/
 def digit36 (d : Nat) : Char :=
   if d < 10 then Char.ofNat ('0'.toNat + d) else Char.ofNat ('a'.toNat + (d - 10))
 
 /-- digits of `n` in base 36, most significant first, prepended to `acc` (`fuel` ≥ number of digits) -/
-def fmt36Aux : Nat → Nat → Str → Str
+def fmt36Aux : Nat → Nat → List Char → List Char
   | 0, _, acc => acc
   | fuel + 1, n, acc =>
     if n < 36 then digit36 n :: acc else fmt36Aux fuel (n / 36) (digit36 (n % 36) :: acc)
 
 /-- `strconv.FormatUint(n, 36)` -/
-def fmt36 (n : Nat) : Str := fmt36Aux (n + 1) n []
+def fmt36 (n : Nat) : List Char := fmt36Aux (n + 1) n []
 
 /-- `IsOneToOneType` -/
-def isOneToOneType (t : Str) : Bool :=
+def isOneToOneType (t : List Char) : Bool :=
   t = spaceTypeOneToOne.toList || t = spaceTypeOneToOneAny.toList
 
-def liftOpt {α : Type} (o : Option α) (e : Err) : Except Err α :=
-  match o with
-  | some a => .ok a
-  | none => .error e
-
 /-- `RawSpaceHeaderWithId` -/
-structure HeaderWithId where
-  id : Str
-  raw : Bytes
+structure HeaderWithId (B C : Type) where
+  id : List C
+  raw : B
   deriving DecidableEq, Repr
+
+/-- `x != nil && !bytes.Equal(x, embedded)` is false -/
+def checkEmbedded {B : Type} [DecidableEq B] (embedded : B) (supplied : Option B) : Bool :=
+  match supplied with
+  | some a => a = embedded
+  | none => true
+
+variable {B C : Type} [DecidableEq B] [DecidableEq C]
 
 /-- `ValidateSpaceHeader(rawHeaderWithId, identity, aclPayload, settingsPayload)`;
 `none` arguments are Go `nil`s. Returns `needCheckSpaceId`. -/
-def validateHeader (W : World) (h : Option HeaderWithId) (identity : Option Key)
-    (aclPayload settingsPayload : Option Bytes) : Except Err Bool := do
-  let h ← liftOpt h .incorrectHeader
-  let sepIdx ← liftOpt (indexDot h.id) .incorrectHeader
-  if W.hash h.raw ≠ h.id.take sepIdx then throw .incorrectCid
-  let (headerBytes, signature) ← liftOpt (W.decRaw h.raw) .malformed
-  let header ← liftOpt (W.decHeader headerBytes) .malformed
-  let payloadIdentity ← liftOpt (W.decKey header.identity) .malformed
-  if !W.verify payloadIdentity headerBytes signature then throw .incorrectHeader
-  if h.id.drop (sepIdx + 1) ≠ fmt36 header.replKey then throw .incorrectHeader
-  let isV1 := header.version = headerVersion1
-  if isV1 then
-    match aclPayload with
-    | some a => if a ≠ header.aclPayload then throw .incorrectHeader
-    | none => pure ()
-    match settingsPayload with
-    | some s => if s ≠ header.settingPayload then throw .incorrectHeader
-    | none => pure ()
+def validateHeader (W : World B C) (h : Option (HeaderWithId B C)) (identity : Option Key)
+    (aclPayload settingsPayload : Option B) : Except Err Bool :=
+  match h with
+  | none => .error .incorrectHeader
+  | some h =>
+  match indexOf (W.ch '.') h.id with
+  | none => .error .incorrectHeader
+  | some sepIdx =>
+  if W.hash h.raw ≠ h.id.take sepIdx then .error .incorrectCid else
+  match W.decRaw h.raw with
+  | none => .error .malformed
+  | some (headerBytes, signature) =>
+  match W.decHeader headerBytes with
+  | none => .error .malformed
+  | some header =>
+  match W.decKey header.identity with
+  | none => .error .malformed
+  | some payloadIdentity =>
+  if W.verify payloadIdentity headerBytes signature = false then .error .incorrectHeader else
+  if h.id.drop (sepIdx + 1) ≠ (fmt36 header.replKey).map W.ch then .error .incorrectHeader else
+  -- isV1 := header.Version == SpaceHeaderVersion1
+  if header.version = headerVersion1 ∧ checkEmbedded header.aclPayload aclPayload = false then .error .incorrectHeader else
+  if header.version = headerVersion1 ∧ checkEmbedded header.settingPayload settingsPayload = false then .error .incorrectHeader else
   if isOneToOneType header.spaceType then
-    if !W.decO2O header.payload then throw .incorrectOneToOne
+    if W.decO2O header.payload = false then .error .incorrectOneToOne
+    else .ok (decide (header.version ≠ headerVersion1))
   else
     match identity with
-    | some k => if payloadIdentity ≠ k then throw .incorrectIdentity
-    | none => pure ()
-  return !isV1
+    | some k =>
+      if payloadIdentity ≠ k then .error .incorrectIdentity else .ok (decide (header.version ≠ headerVersion1))
+    | none => .ok (decide (header.version ≠ headerVersion1))
 
 /-- `RawRecordWithId` / `RawTreeChangeWithId` -/
-structure WithId where
-  id : Str
-  payload : Bytes
+structure WithId (B C : Type) where
+  id : List C
+  payload : B
   deriving DecidableEq, Repr
 
 /-- `validateCreateSpaceAclPayload`: returns the space id named by the ACL root -/
-def validateAcl (W : World) (a : WithId) : Except Err Str := do
-  if W.hash a.payload ≠ a.id then throw .incorrectCid
-  let (rootBytes, signature) ← liftOpt (W.decRaw a.payload) .malformed
-  let root ← liftOpt (W.decAclRoot rootBytes) .malformed
-  let payloadIdentity ← liftOpt (W.decKey root.identity) .malformed
-  if !W.verify payloadIdentity rootBytes signature then throw .incorrectHeader
-  let masterKey ← liftOpt (W.decKey root.masterKey) .malformed
-  if !W.verify masterKey (W.rawKey payloadIdentity) root.identitySig then throw .incorrectHeader
-  return root.spaceId
+def validateAcl (W : World B C) (a : WithId B C) : Except Err (List C) :=
+  if W.hash a.payload ≠ a.id then .error .incorrectCid else
+  match W.decRaw a.payload with
+  | none => .error .malformed
+  | some (rootBytes, signature) =>
+  match W.decAclRoot rootBytes with
+  | none => .error .malformed
+  | some root =>
+  match W.decKey root.identity with
+  | none => .error .malformed
+  | some payloadIdentity =>
+  if W.verify payloadIdentity rootBytes signature = false then .error .incorrectHeader else
+  match W.decKey root.masterKey with
+  | none => .error .malformed
+  | some masterKey =>
+  if W.verify masterKey (W.rawKey payloadIdentity) root.identitySig = false then .error .incorrectHeader else
+  .ok root.spaceId
 
 /-- `validateCreateSpaceSettingsPayload`: returns (aclHeadId, spaceId) -/
-def validateSettings (W : World) (s : WithId) : Except Err (Str × Str) := do
-  if W.hash s.payload ≠ s.id then throw .incorrectHeader
-  let (rootBytes, signature) ← liftOpt (W.decRaw s.payload) .malformed
-  let root ← liftOpt (W.decRoot rootBytes) .malformed
-  let payloadIdentity ← liftOpt (W.decKey root.identity) .malformed
-  if !W.verify payloadIdentity rootBytes signature then throw .incorrectHeader
-  return (root.aclHeadId, root.spaceId)
+def validateSettings (W : World B C) (s : WithId B C) : Except Err (List C × List C) :=
+  if W.hash s.payload ≠ s.id then .error .incorrectHeader else
+  match W.decRaw s.payload with
+  | none => .error .malformed
+  | some (rootBytes, signature) =>
+  match W.decRoot rootBytes with
+  | none => .error .malformed
+  | some root =>
+  match W.decKey root.identity with
+  | none => .error .malformed
+  | some payloadIdentity =>
+  if W.verify payloadIdentity rootBytes signature = false then .error .incorrectHeader else
+  .ok (root.aclHeadId, root.spaceId)
 
 /-- `spacestorage.SpaceStorageCreatePayload`. The two wrappers are always allocated on every path
 that reaches the validator (create, push, pull); their byte slices may be nil (`aclNil`, `setNil`). -/
-structure Payload where
-  header : Option HeaderWithId
-  acl : WithId
+structure Payload (B C : Type) where
+  header : Option (HeaderWithId B C)
+  acl : WithId B C
   aclNil : Bool
-  settings : WithId
+  settings : WithId B C
   setNil : Bool
   deriving DecidableEq, Repr
 
+/-- `payload.SpaceHeaderWithId.Id` after the header was validated (non-nil there) -/
+def Payload.headerId (p : Payload B C) : List C :=
+  match p.header with
+  | some h => h.id
+  | none => []
+
 /-- `ValidateSpaceStorageCreatePayload` -/
-def validate (W : World) (p : Payload) : Except Err Unit := do
-  let needCheckSpaceId ← validateHeader W p.header none
-    (if p.aclNil then none else some p.acl.payload)
-    (if p.setNil then none else some p.settings.payload)
-  let aclSpaceId ← validateAcl W p.acl
-  let (aclHeadId, settingsSpaceId) ← validateSettings W p.settings
-  if needCheckSpaceId then
-    let hid := match p.header with | some h => h.id | none => []
-    if aclSpaceId ≠ hid ∨ aclSpaceId ≠ settingsSpaceId then throw .incorrectHeader
-  if aclHeadId ≠ p.acl.id then throw .incorrectHeader
-  return ()
+def validate (W : World B C) (p : Payload B C) : Except Err Unit :=
+  match validateHeader W p.header none
+      (if p.aclNil then none else some p.acl.payload)
+      (if p.setNil then none else some p.settings.payload) with
+  | .error e => .error e
+  | .ok needCheckSpaceId =>
+  match validateAcl W p.acl with
+  | .error e => .error e
+  | .ok aclSpaceId =>
+  match validateSettings W p.settings with
+  | .error e => .error e
+  | .ok (aclHeadId, settingsSpaceId) =>
+  if needCheckSpaceId = true ∧ (aclSpaceId ≠ p.headerId ∨ aclSpaceId ≠ settingsSpaceId) then .error .incorrectHeader else
+  if aclHeadId ≠ p.acl.id then .error .incorrectHeader else
+  .ok ()
 
 /-! ## one-to-one derivation (symbolic): `GenerateSharedKey`, `makeOneToOneInfo` -/
 
